@@ -52,3 +52,6 @@ claim("C17", "Directed hostile handshake matrix with real proofs (malicious cons
 claim("C07", "Ground-truth oracle over generated double-vote and light-client-attack evidence (valid objects plus one mutant per operator named in the statement), "
       "boundary-call observation of the slash arguments, whole-validator-set equality for non-signers, store-diff emptiness for rejected evidence.",
       "directed hostile workload with ground-truth oracle + boundary call observer + store-diff monitor", "2/C07")
+claim("C16", "Conservation and eligibility monitor over real fee flows: consumer fee splits and IBC transfers (real transfer channel opened by the consumer), provider credits per "
+      "consumer, BeginBlock payouts compared with a statement-level model incl. per-validator boundary calls, commission and outstanding-reward deltas, standing credits<=pool, "
+      "cross-chain conservation at the end of each world.", "online conservation monitor + reference model + boundary call observer + offline end-of-run balance", "2/C16")
